@@ -608,6 +608,10 @@ def jobs(tier):
       expanded=[0, 1, 1, 2], **base)
   add('h_tune', notes=['|::', 'none', '::|', 'k'], expanded=[0, 0, 0, 1],
       **base)
+  # an unrepeated lead-in (or middle part) before a forward repeat sign
+  add('h_tune', notes=['none', '|:', 'k', ':|'], expanded=[0, 1, 1], **base)
+  add('h_tune', notes=['|:', 'none', ':|', 'k', '|:', 'none', ':|'],
+      expanded=[0, 0, 1, 2, 2], **base)
   add('h_tune', notes=['none', '|', 'k', '|]'], expanded=None,
       xref_symbolic=True, **base)
   # accidentals end at every kind of bar line, repeat signs included
